@@ -241,13 +241,14 @@ def inner_cells(ctx, crate, offs):
     if bb is not None:
         eb = Engine(crate); ctx.functions.add(fnb)
         rbb = eb.run(fnb)
-        conds = {show(d) for d, loc in eb.branches}
+        terms = [d for d, loc in eb.branches]
         if rbb.returns:
-            for o in list(eb.phi_ops.get(rbb.ret, [rbb.ret])):
-                if o[0] == 'op' and o[1] == 'eq': conds.add(show(o))
+            terms += [o for o in eb.phi_ops.get(rbb.ret, [rbb.ret])]
+        conds = {frozenset((t[3], t[4])) for t in terms if t[0] == 'op' and t[1] == 'eq'}     # a == b  ==  b == a
+        other = [show(t) for t in terms if not (t[0] == 'op' and t[1] == 'eq') and t[0] != 'c']
         ib, jb = param("i_in_base_cell_bits"), param("j_in_base_cell_bits")
-        want = {show(('op', 'eq', 'bool', C('u64', 0), ib)), show(('op', 'eq', 'bool', ib, xm)), show(('op', 'eq', 'bool', C('u64', 0), jb)), show(('op', 'eq', 'bool', jb, ym))}
-        ctx.report(clause, fnb + ":four-equalities", conds == want, "border test = %s" % sorted(conds), at=bb.span)
+        want = {frozenset((C('u64', 0), ib)), frozenset((ib, xm)), frozenset((C('u64', 0), jb)), frozenset((jb, ym))}
+        ctx.report(clause, fnb + ":four-equalities", conds == want and not other, "border test = %s" % sorted(sorted(show(x) for x in c) for c in conds), at=bb.span)
     # neighbours(): edge path iff border, else inner path; both write the returned map
     fnn = L + "neighbours"
     bn = ctx.anchor(crate, fnn, clause)
